@@ -2,7 +2,7 @@
 from py import vlib
 from py.props import optim_common as oc
 
-GENS = ['Optim']
+GENS = ['Optim', 'Bmm']
 RULE = ('op sequences on the real optimizers with a real accountant attached through get_optimizer_hook_fn: exhaustive to the stated '
         'depth (rdp) and seeded random sequences over rdp / prv / gdp with noise-multiplier and clipping-norm writes; '
         'non-trivial = contains a backward and a step; plus engine-level histories (make_private, Poisson loader, '
@@ -35,14 +35,16 @@ def engine_histories(ctx, n=None):
                       'epochs': r.choice([1, 2]), 'acc': r.choice(['rdp', 'prv', 'gdp']),
                       'mode': r.choice(['hooks', 'hooks', 'ghost', 'functorch']), 'bmm': r.choice([0, 0, 1, 2, 3]),
                       'poisson': r.random() < 0.7, 'sched': r.random() < 0.3 , 'two': r.random() < 0.2,
-                      'q_tiny': r.random() < 0.2})
+                      'q_tiny': r.random() < 0.3})
     res = vlib.run_impl('engine_hist.py', {'cases': cases}, timeout=3600)['results']
     for c, rr in zip(cases, res):
         ctx.case(c, kind='engine/%s/%s' % (c['mode'], c['acc']), nontrivial=rr.get('n_inner', 0) > 0)
         if rr.get('error'):
             ctx.fail('engine-harness-error', 'engine run raised %s' % rr['error'], c)
             continue
-        if rr['n_inner'] != rr['n_records']:
+        if rr.get('n_logical') is not None and rr['n_records'] != rr['n_logical']:
+            ctx.fail('logical-steps-vs-records', 'engine run: %d logical batches (empty ones included) but %d recorded steps' % (rr['n_logical'], rr['n_records']), c)
+        elif rr['n_inner'] != rr['n_records']:
             ctx.fail('records-vs-steps', 'engine run: %d inner steps, %d recorded steps' % (rr['n_inner'], rr['n_records']), c)
         elif rr['bad_order']:
             ctx.fail('unaccounted-step', 'engine run: %s' % rr['bad_order'], c)
